@@ -79,14 +79,14 @@ pub fn termchild(opts: &Opts) -> i32 {
         feoxdb::verif::dev::set_force_sync_path(rng.chance(1, 2));
         feoxdb::verif::dev::install(Some(Arc::new(Failing { from: rng.range(5, 200), n: AtomicU64::new(0) })));
     }
-    let ttl = scenario == "sweeper" || rng.chance(1, 3);
+    let ttl = scenario == "sweeper" || scenario == "ttlchain" || rng.chance(1, 3);
     let store = match FeoxStore::builder()
         .hash_bits(8)
         .no_memory_limit()
         .enable_ttl(ttl)
         .device_path(path.clone())
         .file_size(blocks * 4096)
-        .enable_caching(rng.chance(1, 2))
+        .enable_caching(scenario != "ttlchain" && rng.chance(1, 2))
         .build()
     {
         Ok(s) => Arc::new(s),
@@ -115,6 +115,32 @@ pub fn termchild(opts: &Opts) -> i32 {
                 let v = vec![b'x'; rng.range(10, 9000) as usize];
                 if flusher {
                     let _ = beat.call(t, "flush", || store.flush());
+                    continue;
+                }
+                if scenario == "ttlchain" {
+                    // TTL-only rewrites stacked on values that live only on the device, read back
+                    // before the next flush (chains of deferred generations)
+                    match rng.below(10) {
+                        0 => {
+                            let _ = beat.call(t, "insert", || store.insert(&k, &v));
+                            let _ = beat.call(t, "flush", || store.flush());
+                        }
+                        1..=4 => {
+                            let _ = beat.call(t, "update_ttl", || store.update_ttl(&k, 3600));
+                        }
+                        5 => {
+                            let _ = beat.call(t, "persist", || store.persist(&k));
+                        }
+                        6 | 7 => {
+                            let _ = beat.call(t, "get", || store.get(&k));
+                        }
+                        8 => {
+                            let _ = beat.call(t, "range_query", || store.range_query(b"tk", b"tk~", 50));
+                        }
+                        _ => {
+                            let _ = beat.call(t, "get_ttl", || store.get_ttl(&k));
+                        }
+                    }
                     continue;
                 }
                 match rng.below(12) {
@@ -173,7 +199,7 @@ pub fn run(opts: &Opts) -> i32 {
             let mut rng = Rng::new(seed.wrapping_mul(131_071).wrapping_add(sh));
             let mut calls = 0u64;
             for i in 0..n {
-                let scenario = ["flushers", "full", "failing", "sweeper", "mixed"][((sh + i) % 5) as usize];
+                let scenario = ["flushers", "full", "failing", "sweeper", "mixed", "ttlchain"][((sh + i) % 6) as usize];
                 let cseed = rng.next() % 1_000_000_007;
                 let line = run_child(
                     &["termchild".into(), format!("scenario={scenario}"), format!("seed={cseed}"), format!("path={dir}/dev/t{sh}.feox")],
